@@ -45,7 +45,7 @@ func checkC20(ca *checkArgs) int {
 	start := time.Now()
 	n, budget := 24000, 60*time.Second
 	if ca.tier == "thorough" {
-		n, budget = 1000000, 20*time.Minute
+		n, budget = 3000000, 20*time.Minute
 	}
 	if ca.runs > 0 {
 		n = ca.runs
